@@ -250,8 +250,14 @@ class Polyhedron(Shape3D):
         for i, face in enumerate(self.faces):
             new_faces[labels[i]].update(face)
 
+        old_faces = self._faces
         self._faces = [np.asarray(list(f)) for f in new_faces]
-        self.sort_faces()
+        try:
+            self.sort_faces()
+        except ValueError:
+            # Merging produced a face that cannot be ordered (e.g. nonconvex): leave the shape as it was.
+            self._faces = old_faces
+            raise
         # The edge list is memoized and depends on the faces.
         self.__dict__.pop("edges", None)
 
